@@ -763,6 +763,71 @@ def stage_value_history(ctx: Ctx):
                 break
 
 
+OPTIONLESS_CHILD = r'''
+import sys, json
+from fst import FST
+OPS = [
+ ("binop.left = 'x + y'", lambda: (lambda f: (setattr(f.body[0].value, 'left', 'x + y'), f.src)[1])(FST('r = a * b', 'exec'))),
+ ("import names[0] = 'c as d'", lambda: (lambda f: (f.body[0].names.__setitem__(0, 'c as d'), f.src)[1])(FST('import a, b', 'exec'))),
+ ("from-import names[1] = 'c'", lambda: (lambda f: (f.body[0].names.__setitem__(1, 'c'), f.src)[1])(FST('from m import a, b', 'exec'))),
+ ("list elts[0] = 'p, q'", lambda: (lambda f: (f.body[0].value.elts.__setitem__(0, 'p, q'), f.src)[1])(FST('r = [a, b]', 'exec'))),
+ ("call args[0] = genexp", lambda: (lambda f: (f.body[0].value.args.__setitem__(0, 'x for x in y'), f.src)[1])(FST('g(a, b)', 'exec'))),
+ ("with items[0] = 'b as c'", lambda: (lambda f: (f.body[0].items.__setitem__(0, 'b as c'), f.src)[1])(FST('with a: pass', 'exec'))),
+ ("assign value = lambda", lambda: (lambda f: (setattr(f.body[0], 'value', 'lambda: 0'), f.src)[1])(FST('r = a', 'exec'))),
+ ("assign targets[0] = 'y.z'", lambda: (lambda f: (f.body[0].targets.__setitem__(0, 'y.z'), f.src)[1])(FST('r = a', 'exec'))),
+ ("unary operand = 'b + c'", lambda: (lambda f: (setattr(f.body[0].value, 'operand', 'b + c'), f.src)[1])(FST('r = -a', 'exec'))),
+ ("pow right = 'c ** d'", lambda: (lambda f: (setattr(f.body[0].value, 'right', 'c ** d'), f.src)[1])(FST('r = a ** b', 'exec'))),
+ ("ifexp test = ifexp", lambda: (lambda f: (setattr(f.body[0].value, 'test', 'p if q else r'), f.src)[1])(FST('r = a if b else c', 'exec'))),
+ ("pattern = 'x | y'", lambda: (lambda f: (setattr(f.body[0].cases[0], 'pattern', 'x | y'), f.src)[1])(FST('match a:\n case 1: pass', 'exec'))),
+ ("body[0] = 'return (yield)'", lambda: (lambda f: (f.body[0].body.__setitem__(0, 'return (yield)'), f.src)[1])(FST('def g(): pass', 'exec'))),
+ ("body append", lambda: (lambda f: (f.body[0].body.append('z = 1  # c'), f.src)[1])(FST('if a:\n    pass\n', 'exec'))),
+ ("del body[0]", lambda: (lambda f: (f.body.__delitem__(0), f.src)[1])(FST('# c\na = 1  # d\n\nb = 2\n', 'exec'))),
+ ("attribute value = 'a + b'", lambda: (lambda f: (setattr(f.body[0].value, 'value', 'a + b'), f.src)[1])(FST('r = x.y', 'exec'))),
+ ("subscript slice = 'a, b'", lambda: (lambda f: (setattr(f.body[0].value, 'slice', 'a, *b'), f.src)[1])(FST('r = x[i]', 'exec'))),
+ ("starred value = 'a or b'", lambda: (lambda f: (setattr(f.body[0].value.args[0], 'value', 'a or b'), f.src)[1])(FST('g(*s)', 'exec'))),
+ ("keyword value = 'a := b'", lambda: (lambda f: (setattr(f.body[0].value.keywords[0], 'value', '(a := b)'), f.src)[1])(FST('g(k=v)', 'exec'))),
+ ("dict _all[0:1] = '**d'", lambda: (lambda f: (f.body[0].value._all.__setitem__(slice(0, 1), '**d'), f.src)[1])(FST('r = {a: b, c: d}', 'exec'))),
+ ("orelse = elif", lambda: (lambda f: (setattr(f.body[0], 'orelse', 'if b: pass'), f.src)[1])(FST('if a: pass\nelse: pass\n', 'exec'))),
+ ("docstr", lambda: (lambda f: (f.body[0].put_docstr('doc\nmore'), f.src)[1])(FST('def g():\n    pass\n', 'exec'))),
+ ("compare left = 'a if b else c'", lambda: (lambda f: (setattr(f.body[0].value, 'left', 'a if b else c'), f.src)[1])(FST('r = x < y', 'exec'))),
+ ("decorator_list[0] = 'a.b(c)'", lambda: (lambda f: (f.body[0].decorator_list.__setitem__(0, 'a.b(c)'), f.src)[1])(FST('@d\ndef g(): pass\n', 'exec'))),
+ ("global names[0] = 'zz'", lambda: (lambda f: (f.body[0].body[0].names.__setitem__(0, 'zz'), f.src)[1])(FST('def g():\n    global a, b\n', 'exec'))),
+]
+def run(order):
+    out = {}
+    for i in order:
+        name, op = OPS[i]
+        try:
+            out[name] = op()
+        except Exception as e:
+            out[name] = '!' + type(e).__name__ + ': ' + str(e)[:80]
+    return out
+n = len(OPS)
+passes = [run(range(n)), run(range(n)), run(reversed(range(n))), run(range(n))]
+print(json.dumps(passes))
+'''
+
+
+def stage_optionless_history(ctx: Ctx):
+    """edits made WITHOUT options (attribute / index assignment, deletion, append ...) give the same result whatever other option-less edits ran before them in the process, on any
+    tree: a list of such edits over many node kinds is run four times in one fresh process (forwards, again, backwards, again); every edit must give the same source each time"""
+    import subprocess
+    try:
+        p = subprocess.run([sys.executable, '-c', OPTIONLESS_CHILD], capture_output=True, text=True, env={**os.environ, 'PYTHONPATH': os.path.join(REPO, 'src'), 'PYTHONHASHSEED': '0'}, timeout=300)
+        if p.returncode != 0:
+            raise RuntimeError(p.stderr[-400:])
+        passes = json.loads(p.stdout)
+    except Exception as e:
+        ctx.broken.append({'kind': 'harness', 'name': 'optionless_history', 'detail': repr(e)[:300]})
+        return
+    for name in passes[0]:
+        vals = [ps[name] for ps in passes]
+        ctx.tick(('optionless', name), 'history:optionless-edit')
+        if len(set(vals)) != 1:
+            ctx.violation('optionless-history|' + name[:40], 'an edit made without options gives another result after other option-less edits ran in the same process',
+                          {'edit': name, 'first_pass': vals[0], 'second_pass': vals[1], 'reversed_pass': vals[2], 'fourth_pass': vals[3]})
+
+
 def run(ctx: Ctx):
     ctx.rule = ('(1) random option traces over 1-3 real threads in generated lock-step interleavings (set_options / options() enter / exit normal or with '
                 'exception / get_option with per-call dict), every option name incl. unknown and call-only names, values from a 43-value universe; model vs '
@@ -781,6 +846,7 @@ def run(ctx: Ctx):
     run_guarded(ctx, stage_option_values_untouched)
     run_guarded(ctx, stage_calls_leave_defaults)
     run_guarded(ctx, stage_value_history)
+    run_guarded(ctx, stage_optionless_history)
     progs = [p for p in corpus(ctx.rng, gen=ctx.scale(10, 40)) if len(p) < 1500]
     run_guarded(ctx, stage_registry_commute_corr)
     run_guarded(ctx, stage_concurrent, progs)
